@@ -16,7 +16,7 @@ import vlib, enginelib
 M = 1000003
 MASK = (1 << 64) - 1
 POOL = [1, 2, 3, 9, 10, 11, 19, 20, 100, 101]      # as names: k1 < k10 < k100 < k101 < k11 < k19 < k2 < k20 < k3 < k9
-SCHEDS_Q = ["sync", "defer:1", "mixed:2"]
+SCHEDS_Q = ["sync", "defer:1", "defer:4", "mixed:2", "mixed:9"]
 
 
 def mix(h, x):
